@@ -72,7 +72,7 @@ Inductive shape (c : tcfg) (b b' : bst A) : Prop :=
 
 Lemma bstep_shape c (b : bst A) e : blocked b = false -> shape c b (bstep (tc c) b e).
 Proof.
-  intros B. destruct e as [it|ok|ok| |ok|it]; cbn [bstep].
+  intros B. destruct e as [it|ok|ok| |ok|it|sk]; cbn [bstep].
   - destruct (N.ltb_spec (N.of_nat (length (queue b))) (qcap (tc c))).
     + eapply ShEnq; cbn; eauto.
     + apply ShSame; cbn; auto.
@@ -86,6 +86,8 @@ Proof.
     destruct (fixed_S28 (tc c) && (cur b =? 0)); [apply ShSame; cbn; auto|].
     destruct ok; apply ShSame; cbn; auto.
   - apply ShSame; cbn; auto.
+  - rewrite B. destruct (pc b) eqn:PC; [|apply ShSame; auto]. destruct (queue b) eqn:Q; [|apply ShSame; rewrite ?Q; auto].
+    destruct (fixed_S35 (tc c) && (0 <? cur b) && sk); apply ShSame; cbn; rewrite ?Q, ?PC; auto.
 Qed.
 
 Lemma tstep_shape c s te : reset_every_item c = false -> blocked (core s) = false -> shape c (core s) (core (tstep c s te)).
@@ -98,7 +100,7 @@ Lemma now_tstep c s te : now (ti s) <= now (ti (tstep c s te)) /\ (forall e, te 
 Proof.
   destruct te as [dt|e]; cbn [tstep]; [cbn; split; [lia|intros e E; discriminate]|].
   split; [|intros e0 _].
-  all: destruct e as [it|ok|ok| |ok|it]; cbn [tstep];
+  all: destruct e as [it|ok|ok| |ok|it|sk]; cbn [tstep];
     repeat match goal with |- context [if ?x then _ else _] => destruct x end;
     repeat match goal with |- context [match ?x with _ => _ end] => destruct x end; cbn; try lia; try reflexivity.
 Qed.
@@ -107,7 +109,7 @@ Lemma ptimes_tstep c s te :
   ptimes (ti (tstep c s te)) = ptimes (ti s) \/ ptimes (ti (tstep c s te)) = ptimes (ti s) ++ [now (ti s)] \/ ptimes (ti (tstep c s te)) = [].
 Proof.
   destruct te as [dt|e]; [left; reflexivity|].
-  destruct e as [it|ok|ok| |ok|it]; cbn [tstep];
+  destruct e as [it|ok|ok| |ok|it|sk]; cbn [tstep];
     repeat match goal with |- context [if ?x then _ else _] => destruct x end;
     repeat match goal with |- context [match ?x with _ => _ end] => destruct x end; cbn; auto.
 Qed.
@@ -342,7 +344,7 @@ End Run.
 End QueueLemmas.
 
 (* a burst of three operations into a worker that needs 2 to take one and 3 for a size commit (batch size 2), max_age 10 *)
-Definition burst_cfg : tcfg := mk_tcfg (mk_bcfg 3 2 true true) 10 false.
+Definition burst_cfg : tcfg := mk_tcfg (mk_bcfg 3 2 true true true) 10 false.
 Definition burst : list (cev N) :=
   [Ev (Enq 1); Ev (Enq 2); Ev (Enq 3); Tick 2; Ev (Take true); Tick 2; Ev (Take true); Tick 3; Ev (SizeCommit true);
    Tick 2; Ev (Take true); Tick 10; Ev Fire; Tick 1; Ev (OnTimer true)].
